@@ -53,6 +53,18 @@ def variants(inst, rng, sc):
         args[v] = L([val]) if op == "one_of" else val
         n["props"].append(prop_node(pname, filters=[FVar(op, v)]))
         yield "subset", [inst, mk(q, args, "add_filter")]
+    # 1b. add a filter on a fold's count (fold not nested in another fold): rows can only disappear; and the partition by a count filter and its negation
+    folds = [(p, n) for p, n, uf, uo in scopes if n["mode"] == "fold" and p and not any(at(q0, p[:k])["mode"] == "fold" for k in range(1, len(p)))]
+    if folds:
+        p, _ = rng.choice(folds)
+        q = copy.deepcopy(q0); n = at(q, p); args = dict(args0); v = fresh_var(args)
+        op = rng.choice(["=", "!=", "<", "<=", ">", ">=", "one_of", "not_one_of"])
+        args[v] = L([I(rng.choice([0, 1, 2])), I(3)]) if "one_of" in op else I(rng.choice([0, 1, 2, 3]))
+        n.setdefault("count", {"filters": [], "outputs": [], "tags": []})["filters"].append(FVar(op, v))
+        yield "subset", [inst, mk(q, args, "add_count_filter")]
+        if op in NEG and not any(uo2 for p2, n2, uf2, uo2 in scopes if p2 == p):
+            qn = copy.deepcopy(q); at(qn, p)["count"]["filters"][-1]["op"] = NEG[op]
+            yield "partition", [inst, mk(q, args, "count_filter"), mk(qn, args, "negated_count_filter")]
     # 2. deeper recursion
     recs = [(p, n) for p, n, uf, uo in scopes if n["mode"] == "recurse" and not uf]
     if recs:
@@ -126,9 +138,30 @@ def variants(inst, rng, sc):
         for _, n, _, _ in paths(q): n["edges"].reverse()
         yield "equal", [inst, mk(q, args0, "edges_reordered")]
 
-def meta_cases(base_insts, seed):
+def count_filter_cases(tier, seed):
+    """systematic: a second count filter added to a fold that already has one (every operator pair), on folds that nothing observes
+    (where the engine may stop materialising early) and on folds whose count is output; plus the partition by the added filter and its negation"""
+    import foldfam
+    sc = VS1(); cases = []
+    bases = [i for i in foldfam.fold_instances("quick", seed) if i["cls"]["decor"] in ("nothing", "count_output") and i["cls"]["under"] == "root" and len(i["cls"]["ops"]) == 1
+             and i["args"]["n0"]["k"] == "int" and unlimbs(i["args"]["n0"]["v"]) in (1, 2)]
+    bases = bases[:: (3 if tier == "quick" else 1)]
+    for b in bases:
+        for op in ["=", "!=", "<", "<=", ">", ">=", "one_of", "not_one_of"]:
+            for a in (1, 2, 3):
+                q = copy.deepcopy(b["q"]); args = dict(b["args"])
+                args["n9"] = L([I(a), I(a + 2)]) if "one_of" in op else I(a)
+                q["edges"][0]["count"]["filters"].append(FVar(op, "n9"))
+                t = make_instance(0, sc, b["g"], q, args, cls={"family": "meta", "rel": "add_second_count_filter"})
+                cases.append({"rel": "subset", "insts": [b, t], "kind": "add_second_count_filter"})
+                if op in NEG:
+                    qn = copy.deepcopy(q); qn["edges"][0]["count"]["filters"][-1]["op"] = NEG[op]
+                    cases.append({"rel": "partition", "insts": [b, t, make_instance(0, sc, b["g"], qn, args, cls={"family": "meta", "rel": "negated_second_count_filter"})], "kind": "partition_by_count_filter"})
+    return cases
+
+def meta_cases(base_insts, seed, tier="quick"):
     rng = random.Random(seed * 17 + 3)
-    cases = []
+    cases = count_filter_cases(tier, seed)
     for inst in base_insts:
         sc = SCHEMAS[inst["schema"]["name"]]()
         for rel, group in variants(inst, rng, sc):
